@@ -47,6 +47,10 @@ struct Sim {
     notes: Vec<Value>,
     /// peers that exist only as routing-table entries: peer id -> 100 + seed
     phantoms: std::collections::HashMap<PeerId, i64>,
+    /// nodes whose `AddLocalRecordAsStored` commands (sent by the store after its spawned disk write) are
+    /// held back instead of being handed to the driver, and the commands held back so far
+    hold_local: std::collections::HashSet<usize>,
+    held_back: Vec<(usize, LocalSwarmCmd)>,
 }
 
 fn peer_index(sim: &Sim, p: &PeerId) -> i64 {
@@ -98,11 +102,23 @@ fn routing_table_by_distance(sim: &mut Sim, i: usize) -> Vec<(PeerId, ant_evm::U
 
 /// the record store's range asked for by a `set_range` op of node `i`:
 /// "max" | {"key": k, "below"|"above": bool} | {"among": [k..], "rank": r, "delta": -1|0|1}
-/// (`among`/`rank`: the distance of the r-th nearest, 0-based, of the listed keys to node `i`)
+/// | {"peer_rank": r, "delta": -1|0|1}
+/// (`among`/`rank`: the distance of the r-th nearest, 0-based, of the listed keys to node `i`;
+///  `peer_rank`: the distance of the r-th nearest, 1-based, routing-table peer of node `i`)
 fn range_of_spec(sim: &mut Sim, i: usize, spec: &Value) -> ant_evm::U256 {
     let one = ant_evm::U256::from(1u8);
     if spec.as_str() == Some("max") {
         return ant_evm::U256::MAX;
+    }
+    if let Some(r) = spec.get("peer_rank").and_then(|v| v.as_u64()) {
+        let rt = routing_table_by_distance(sim, i);
+        let pos = (r.max(1) as usize - 1).min(rt.len().saturating_sub(1));
+        let d = rt.get(pos).map(|(_, d)| *d).unwrap_or(ant_evm::U256::MAX);
+        return match spec["delta"].as_i64().unwrap_or(0) {
+            x if x < 0 => d.saturating_sub(one),
+            0 => d,
+            _ => d.saturating_add(one),
+        };
     }
     if let Some(keys) = spec.get("among").and_then(|v| v.as_array()) {
         let mut ds: Vec<ant_evm::U256> = keys
@@ -189,6 +205,13 @@ async fn settle(sim: &mut Sim, step: &mut Vec<Value>) {
                 if let LocalSwarmCmd::PutLocalRecord { record } = &cmd {
                     // the point where the driver copies the store's range into the fetcher
                     step.push(json!({"node": i, "put_local": build::key_name(&sim.reg, record.key.as_ref())}));
+                }
+                if sim.hold_local.contains(&i) {
+                    if let LocalSwarmCmd::AddLocalRecordAsStored { key, .. } = &cmd {
+                        step.push(json!({"node": i, "held_back": build::key_name(&sim.reg, key.as_ref())}));
+                        sim.held_back.push((i, cmd));
+                        continue;
+                    }
                 }
                 if let Err(e) = nethooks::handle_local_cmd(&mut sim.nodes[i].driver, cmd) {
                     step.push(json!({"node": i, "local_cmd_err": format!("{e:?}")}));
@@ -291,6 +314,21 @@ fn dump_node(sim: &mut Sim, i: usize) -> Value {
         let dist = distance_u256(&sim.nodes[i].peer, &key).to_string();
         held.push(json!({"key": build::key_name(&sim.reg, key.as_ref()), "type": rtype_json(t), "content": content, "dist": dist}));
     }
+    // records the store serves (`RecordStore::get`, cache first) although its index does not list them yet:
+    // put, but the follow-up AddLocalRecordAsStored has not been handled
+    let indexed: std::collections::HashSet<Vec<u8>> = addrs.iter().map(|(a, _)| a.to_record_key().to_vec()).collect();
+    let reg_keys: Vec<Vec<u8>> = sim.reg.keys.keys().cloned().collect();
+    for kb in reg_keys {
+        if indexed.contains(&kb) {
+            continue;
+        }
+        let key = RecordKey::from(kb.clone());
+        if let Some(r) = sim.nodes[i].driver.verif_get_local_record(&key) {
+            let dist = distance_u256(&sim.nodes[i].peer, &key).to_string();
+            held.push(json!({"key": build::key_name(&sim.reg, &kb), "type": Value::Null, "unindexed": true,
+                             "content": build::describe(&sim.reg, &r.value), "dist": dist}));
+        }
+    }
     held.sort_by_key(|v| v["key"].to_string());
     let self_addr = NetworkAddress::from_peer(sim.nodes[i].peer);
     let closest: Vec<i64> = sim.nodes[i].driver.verif_closest_k_value_local_peers().iter().map(|p| peer_index(sim, p)).collect();
@@ -339,7 +377,7 @@ fn snapshot(sim: &mut Sim, eff: Value, log: Vec<Value>) -> Value {
 
 async fn run_case_async(case: &Value) -> Value {
     let seeds: Vec<i64> = case["nodes"].as_array().unwrap().iter().map(|v| v.as_i64().unwrap()).collect();
-    let mut sim = Sim { nodes: vec![], pool: vec![], reg: Registry::default(), notes: vec![], phantoms: Default::default() };
+    let mut sim = Sim { nodes: vec![], pool: vec![], reg: Registry::default(), notes: vec![], phantoms: Default::default(), hold_local: Default::default(), held_back: vec![] };
     for s in &seeds {
         let kp = build::peer_kp(*s);
         let peer = kp.public().to_peer_id();
@@ -499,6 +537,21 @@ async fn run_case_async(case: &Value) -> Value {
                     steps.push(snap);
                 }
                 continue;
+            }
+            "hold_local" => {
+                let _ = sim.hold_local.insert(op["node"].as_u64().unwrap() as usize);
+            }
+            "release_local" => {
+                let i = op["node"].as_u64().unwrap() as usize;
+                let _ = sim.hold_local.remove(&i);
+                let (mine, rest): (Vec<_>, Vec<_>) = std::mem::take(&mut sim.held_back).into_iter().partition(|(n, _)| *n == i);
+                sim.held_back = rest;
+                for (_, cmd) in mine {
+                    if let Err(e) = nethooks::handle_local_cmd(&mut sim.nodes[i].driver, cmd) {
+                        step.push(json!({"node": i, "local_cmd_err": format!("{e:?}")}));
+                    }
+                }
+                settle(&mut sim, &mut step).await;
             }
             "settle" => settle(&mut sim, &mut step).await,
             "dump" => {}
